@@ -250,6 +250,9 @@ class LG:
             return t, True, True, f"def sel({p}): return ({p}.n{m}, {p}.f{m}({m}))\n{{IND}}def other({p}): return {p}.decoy{m}\n{{IND}}r = ds.Select(sel)", "attr"
         if t == "factory_lambda":
             (b1, f), (b2, _) = B(), B()
+            if r.random() < 0.4:
+                # ... made through a generator expression inside the other lambda (with the very same parameter name)
+                return t, False, True, f"r = ds.Select((lambda {p}: next((lambda {p}: ({b2}, 1)) for _ in [0]))(0))", f
             return t, False, True, f"r = ds.Select(lambda {p}: {b1}).Select((lambda sc: lambda {p}: ({b2}, sc))(2))", f
         if t == "kwarg_const_after":
             self.k += 1
@@ -269,7 +272,11 @@ class LG:
             self.k += 1
             m = self.k
             cont = r.choice([f"{p}.a{m} +\n{{IND}}        {p}.b{m}", f"{p}.a{m}\n{{IND}}        .tail{m}", f"{p}.a{m} > {m}\n{{IND}}        and {p}.c{m} < 2",
-                             f"{p}.a{m} if {p}.b\n{{IND}}        else {p}.c{m}", f"{p}.a{m}  # lambda {p}: ({p}.no\n{{IND}}        * {p}.b{m}"])
+                             f"{p}.a{m} if {p}.b\n{{IND}}        else {p}.c{m}", f"{p}.a{m}  # lambda {p}: ({p}.no\n{{IND}}        * {p}.b{m}",
+                             # continuation lines that START no instruction of their own: the tail of a constant python folds at
+                             # compile time, the second half of adjacent string literals, the empty brackets of a call
+                             f"{p}.a{m} > 30\n{{IND}}        * 1000.0", f"{p}.trig{m} == 'HLT_{m}_'\n{{IND}}        'tail'", f"{p}.cnt{m}\n{{IND}}        ()",
+                             f"{p}.a{m} + 2\n{{IND}}        * 0.25"])
             form = r.choice(["first", "first", "second", "list"])
             if form == "first":
                 return t, True, True, f"r = ds.{self.op()}(\n{{IND}}    lambda {p}: {cont}\n{{IND}})", "ml-outer"
